@@ -47,7 +47,7 @@ def register(R):
 
         def req(c):
             v = c.ref('value')
-            return [('valid', S.valid_flags(c.pre, v)), ('wft-axiom', S.wft_axiom(c.eng, c.pre), {'static': S.STRUCT_FIELDS}), ('wft', S.WFT(v)), ('desc-valid', S.desc_valid(c.pre, v))]
+            return [('valid', S.valid_flags(c.pre, v)), S.subwf_clause(c.eng, c.pre, v), ('desc-valid', S.desc_valid(c.pre, v))]
 
         def ens(c):
             v = c.ref('value')
@@ -101,7 +101,7 @@ def register(R):
     # ---- _propagate_priority (added by the fix for C03) --------------------------------------------
     def pp_req(c):
         s = c.ref('self')
-        return [('valid', S.valid_flags(c.pre, s)), ('wft-axiom', S.wft_axiom(c.eng, c.pre), {'static': S.STRUCT_FIELDS}), ('wft', S.WFT(s)),
+        return [('valid', S.valid_flags(c.pre, s)), S.subwf_clause(c.eng, c.pre, s),
                 ('desc-valid', S.desc_valid(c.pre, s))]
 
     def pp_ens(c):
@@ -128,3 +128,108 @@ def register(R):
                    ensures=[('pp', pp_ens), ('descendants-stay-valid', lambda c: S.desc_valid(c.post, c.ref('self')))], props=('C03',), loops={0: Loop(pp_inv, mod_locals=['child'], mod_fields=['_priority'])},
                    ))
     R.inline_keys.add(N + 'ConfigNode._propagate_priority')
+    register_callee(R)
+
+
+# ---------------------------------------------------------------------------------------------------------------
+# callee-facing contract of `ConfigNode(value, **flags)` (type deduction).  The branch for an existing node is the
+# one proved above (adopt-*); the branch that wraps a plain Python value in a new node is ASSUMED (object creation
+# through type.__call__ / ConfigScalarMeta class synthesis is outside the subset) and listed as such in the evidence.
+Content = z3.Function('Content', z3.IntSort(), Val)      # ghost: the plain value a freshly built node was made from
+
+
+def _kw_of(c, it=None):
+    """python dict name -> Val term of the (concrete-shape) **kwargs of this call"""
+    kv = c.a['kwargs']
+    m = c.pre.m(r_of(kv.t))
+    n = sym.simp(m.len)
+    out = {}
+    for i in range(n.as_long()):
+        k = sym.simp(z3.Select(m.keyat, i))
+        out[sym.py_of_val(k)] = sym.simp(z3.Select(m.val, k))
+    return out
+
+
+def register_callee(R):
+    def value_of(c):
+        return c.a['args'].items[0].t
+
+    def isnode(c):
+        v = value_of(c)
+        return z3.And(is_ref(v), c.eng.isinstance_term(c.pre.cls(r_of(v)), 'ConfigNode'))
+
+    def req(c):
+        v = value_of(c)
+        kw = _kw_of(c)
+        out = [('deduction-form', z3.BoolVal(c.a['cls'].name == 'ConfigNode' and len(c.a['args'].items) == 1))]
+        out.append(('flags-valid', z3.And([kw_valid(t, k) for k, t in kw.items()] or [z3.BoolVal(True)])))
+        vr = r_of(v)
+        out.append(('node-valid', z3.Implies(isnode(c), z3.And(S.valid_flags(c.pre, vr), S.desc_valid(c.pre, vr)))))
+        out.append(S.subwf_clause(c.eng, c.pre, vr, guard=isnode(c)))
+        return out
+
+    def result(c, it):
+        r = it.run.fresh('newnode', sym.I)
+        c.x['rr'] = r
+        return SV(sym.mk_ref(r))
+
+    def ens(c):
+        v = value_of(c)
+        vr = r_of(v)
+        kw = _kw_of(c)
+        rr = r_of(c.rt)
+        node = isnode(c)
+        out = [('adopted-is-same-object', z3.Implies(node, rr == vr)),
+               ('new-is-fresh', z3.Implies(z3.Not(node), rr < -1000000)),
+               ('result-is-node', c.eng.isinstance_term(c.post.cls(rr), 'ConfigNode')),
+               ('result-valid', S.valid_flags(c.post, rr))]
+        for k in INHERIT:
+            f = '_' + k
+            pre_, post_ = c.pre.get(f, vr), c.post.get(f, rr)
+            if k in kw:
+                if k == 'implicit_safe':
+                    out.append((k, z3.If(z3.And(node, pre_ == sym.FALSE), post_ == sym.FALSE, post_ == kw[k])))
+                else:
+                    out.append((k, post_ == kw[k]))
+            else:
+                out.append((k, z3.Implies(node, post_ == pre_)))
+        x = z3.Int('!cx')
+        if 'priority' in kw:
+            out.append(('prio-below', z3.Implies(node, S.FA([x], z3.Implies(S.Desc(vr, x), c.post.get('_priority', x) == kw['priority']), patterns=[S.Desc(vr, x)]))))
+        out.append(('never-makes-safe', S.FA([x], z3.Implies(z3.And(x != rr, x > 0, S.safe(c.post, x)), S.safe(c.pre, x)))))
+        out.append(('desc-valid', z3.Implies(node, S.desc_valid(c.post, vr))))
+        # ASSUMED part: a new node built from a plain value
+        new = z3.Not(node)
+        for f, k in (('_delete', 'delete'), ('_allow_new', 'allow_new'), ('_safe', 'safe')):
+            out.append((k, z3.Implies(new, c.post.get(f, rr) == kw.get(k, sym.NONE))))
+        out.append(('content', z3.Implies(new, Content(rr) == v)))
+        cls = c.post.cls(rr)
+        out.append(('deduced-class', z3.Implies(new, z3.And(
+            z3.Implies(sym.is_str(v), cls == c.cid('ConfigScalar[str]')), z3.Implies(sym.is_bool(v), cls == c.cid('ConfigScalar[bool]')),
+            z3.Implies(sym.is_int(v), cls == c.cid('ConfigScalar[int]')), z3.Implies(sym.is_none(v), cls == c.cid('ConfigScalar[NoneType]')),
+            z3.Implies(z3.And(is_ref(v), c.pre.cls(vr) == c.cid('list')), cls == c.cid('ConfigList')),
+            z3.Implies(z3.And(is_ref(v), c.pre.cls(vr) == c.cid('dict')), cls == c.cid('ConfigDict')),
+            z3.Implies(z3.Not(is_ref(v)), z3.And(c.post.get('$sval', rr) == v, z3.Not(S.is_composed(c.eng, cls)))),
+            S.subwf(c.eng, c.post, rr)))))
+        return out
+
+    def mods(c):
+        v = value_of(c)
+        vr = r_of(v)
+        node = isnode(c)
+        out = []
+        for f in ['_priority', '_pyyaml_node'] + S.IMPLICIT:
+            out.append((f, (lambda r, vr=vr, node=node: z3.And(node, z3.Or(r == vr, S.Desc(vr, r))))))
+        return out
+
+    def post_effect(c, it):
+        # make the fresh identity distinct from every earlier callee-created object
+        rr = r_of(c.rt)
+        floor = getattr(it.run, 'floor', z3.IntVal(-1000000))
+        it.run.assume(z3.Implies(rr < 0, rr < floor))
+        it.run.floor = z3.If(rr < 0, rr, floor)
+
+    R.add(Contract(N + 'ConfigNodeMeta.__call__', [], name='callee', requires=req, ensures=[('make', ens)], modifies=mods, result=result,
+                   assume_only=True, props=('C01', 'C03', 'C07', 'C17'), opts={'callee': True, 'post_effect': post_effect},
+                   note='ConfigNode(value, **flags): adoption of an existing node is proved (adopt-* instances); construction of a NEW node from a '
+                        'plain value (class by type deduction, flags from the keyword arguments, content = value) is assumed'))
